@@ -320,6 +320,9 @@ func (a *Alpha) primParseInputs(k Kind) []inClass {
 		out := []inClass{{"valid", valid, false}, {"missing", nil, true}, {"nil", nil, false}, {"empty", "", false}, failingClass(k)}
 		if k != KStr {
 			out = append(out, inClass{"uncoercible", "abc", false})
+		} else {
+			// ordinary text that spells a missing value in other notations: a present string like any other
+			out = append(out, inClass{"the text null", "null", false})
 		}
 		out = append(out, inClass{"only-under-a-key-of-other-letter-case", caseVariant{valid}, false})
 		return out
